@@ -51,9 +51,9 @@ const char* error_name(gdstk::ErrorCode e);
 // what the GDSII writer is entitled to emit for a path that is not a plain PATH record: gdstk's own
 // outline of the in-memory object (to_polygons), rounded to the grid the way the writer rounds,
 // one set per repetition offset.  Whether that outline is geometrically right is C07/C08's business.
-std::vector<std::vector<canon::IPt>> path_outline(const model::MLib& m, const model::MPath& p, uint64_t* max_raw_vertices = nullptr);
+std::vector<std::vector<canon::IPt>> path_outline(const model::MLib& m, const model::MPath& p, uint64_t* max_raw_vertices = nullptr, bool expand = true);
 // centre line of a simple RobustPath as the writer samples it (element_center), rounded likewise
-std::vector<std::vector<canon::IPt>> robust_centres(const model::MLib& m, const model::MPath& p);
+std::vector<std::vector<canon::IPt>> robust_centres(const model::MLib& m, const model::MPath& p, bool expand = true);
 
 }  // namespace bridge
 
